@@ -7,6 +7,7 @@ import (
 	"math/rand"
 	"net"
 	"os"
+	"runtime"
 	"strconv"
 	"strings"
 	"sync"
@@ -532,6 +533,72 @@ func c06DeadlineSweep(n int, seed int64) (viol []string, timeouts, switches int,
 	return viol, timeouts, switches, atomic.LoadInt64(&w.events)
 }
 
+// c06AcquireStorm: readers are acquired, used and released through the handler from 4x as many goroutines as CPUs
+// while full reloads replace the backend back to back. The instrumented backend records every call made on an
+// instance after it was closed, every close during a call and every second close; at the end every backend ever
+// opened must be closed exactly once.
+func c06AcquireStorm(reloads int) (viol []string, acquires int64, events int64) {
+	w := &c06World{}
+	cur := db.NewVerifDB(w.newInst(true))
+	h, err := dnsserver.NewFBDNSDBBasic(dnsserver.HandlerConfig{}, dnsserver.DBConfig{Path: "initial", Driver: "traced", ReloadTimeout: 10 * time.Second, ValidationKey: []byte("validation-key")}, dnsserver.CacheConfig{}, &harness.Logger{}, harness.NewStats())
+	if err != nil {
+		return []string{err.Error()}, 0, 0
+	}
+	h.VerifSetDB(cur)
+	old := runtime.GOMAXPROCS(4 * runtime.NumCPU())
+	defer runtime.GOMAXPROCS(old)
+	var stop int32
+	var wg sync.WaitGroup
+	for g := 0; g < 4*runtime.NumCPU(); g++ {
+		wg.Add(1)
+		go func() {
+			defer wg.Done()
+			for atomic.LoadInt32(&stop) == 0 {
+				rd, err := h.AcquireReader()
+				if err != nil {
+					continue
+				}
+				rd.ForEach([]byte("k"), func([]byte) error { return nil })
+				rd.Close()
+				atomic.AddInt64(&acquires, 1)
+			}
+		}()
+	}
+	for i := 0; i < reloads; i++ {
+		if err := h.Reload(*dnsserver.NewFullReloadSignal(fmt.Sprintf("NO#storm%d", i))); err != nil {
+			w.violate("full reload %d failed: %v", i, err)
+			break
+		}
+	}
+	atomic.StoreInt32(&stop, 1)
+	wg.Wait()
+	h.Close()
+	deadline := time.Now().Add(8 * time.Second)
+	for {
+		allClosed := true
+		w.mu.Lock()
+		for _, t := range w.insts {
+			if atomic.LoadInt32(&t.closes) == 0 {
+				allClosed = false
+			}
+		}
+		w.mu.Unlock()
+		if allClosed || time.Now().After(deadline) {
+			break
+		}
+		time.Sleep(200 * time.Microsecond)
+	}
+	w.mu.Lock()
+	for _, t := range w.insts {
+		if c := atomic.LoadInt32(&t.closes); c != 1 && len(w.viol) < 10 {
+			w.viol = append(w.viol, fmt.Sprintf("backend #%d closed %d times by the end of the storm", t.id, c))
+		}
+	}
+	viol = append(viol, w.viol...)
+	w.mu.Unlock()
+	return viol, atomic.LoadInt64(&acquires), atomic.LoadInt64(&w.events)
+}
+
 // c06Key names the open-finding predicate a failing sequence satisfies.
 func c06Key(seq []string) string {
 	// a blocked same-backend reload (BS) still pending when shutdown comes
@@ -562,7 +629,7 @@ type c06Case struct {
 }
 
 func runC06(r *report.Run) {
-	r.SetRule("an instrumented backend (open/use/close events per instance, scripted reload outcomes: new-ok NO, same-ok SO, open-error OE, new-without-validation-key NV, same-without-validation-key SV, and blocked-until-released variants BN/BS/BF that exceed the 1 ms reload timeout and finish late) is driven through db.DB directly and through FBDNSDB by ALL operation sequences over {acquire (<=3 readers), use/release oldest|newest reader, the 8 reload outcomes, a new-ok reload during which another goroutine acquires and uses a reader between the return of db.Reload and the switch (verif hook r:reloaded), unblock, shutdown} up to a depth bound (reader-symmetric duplicates and sequences continuing after shutdown are skipped), then by seeded random longer ones; plus sweeps of reloads that open a new backend and finish within 300 us of a 2 ms reload timeout (both outcomes occur, counted); every history is completed (late reloads released, shutdown, readers released, goroutines settled). Invariants: no call on a closed instance, no close while a call runs, close count <= 1, served and pinned instances stay open, every instance ever opened is closed exactly once at the end. non-trivial = applicable sequence containing a reload and a reader; distinct by sequence")
+	r.SetRule("an instrumented backend (open/use/close events per instance, scripted reload outcomes: new-ok NO, same-ok SO, open-error OE, new-without-validation-key NV, same-without-validation-key SV, and blocked-until-released variants BN/BS/BF that exceed the 1 ms reload timeout and finish late) is driven through db.DB directly and through FBDNSDB by ALL operation sequences over {acquire (<=3 readers), use/release oldest|newest reader, the 8 reload outcomes, a new-ok reload during which another goroutine acquires and uses a reader between the return of db.Reload and the switch (verif hook r:reloaded), unblock, shutdown} up to a depth bound (reader-symmetric duplicates and sequences continuing after shutdown are skipped), then by seeded random longer ones; plus sweeps of reloads that open a new backend and finish within 300 us of a 2 ms reload timeout (both outcomes occur, counted); plus a storm: readers acquired, used and released through the handler from 4x NumCPU goroutines (GOMAXPROCS raised accordingly) during 20 000 back-to-back full reloads; every history is completed (late reloads released, shutdown, readers released, goroutines settled). Invariants: no call on a closed instance, no close while a call runs, close count <= 1, served and pinned instances stay open, every instance ever opened is closed exactly once at the end. non-trivial = applicable sequence containing a reload and a reader; distinct by sequence")
 	r.Assume("the instrumented backend marks a slow reload as a call in progress on the old backend for its whole duration (as a RocksDB catch-up is)")
 	depth := r.Pick(4, 5)
 	var cur []string
@@ -711,6 +778,21 @@ func runC06(r *report.Run) {
 		}
 		swg.Wait()
 	}
+	// acquire/use/release storm under back-to-back full reloads
+	{
+		n := r.Pick(20000, 200000)
+		viol, acq, ev := c06AcquireStorm(n)
+		r.Eval(1)
+		r.Count("backend_events", ev)
+		r.Count("storm_full_reloads", int64(n))
+		r.Count("storm_reader_acquisitions", acq)
+		if acq > 0 {
+			r.Nontrivial("acquire-storm")
+		}
+		for _, v := range viol {
+			r.Violation("", "readers acquired and released from 4x NumCPU goroutines during back-to-back full reloads: "+v, c06Case{Seq: []string{"acquire-storm", fmt.Sprint(n)}})
+		}
+	}
 	// real backends in a child process: any crash is the violation
 	res, err := runChild(false, "c06real", []string{fmt.Sprint(r.Seed), fmt.Sprint(r.Pick(60, 600))}, 20*time.Minute)
 	if err != nil {
@@ -809,7 +891,13 @@ func replayC06(r *report.Run, raw json.RawMessage) {
 		return
 	}
 	var viol []string
-	if c.Seq[0] == "deadline-sweep" && len(c.Seq) == 3 {
+	if c.Seq[0] == "acquire-storm" && len(c.Seq) == 2 {
+		var n int
+		fmt.Sscan(c.Seq[1], &n)
+		for try := 0; try < 3 && len(viol) == 0; try++ {
+			viol, _, _ = c06AcquireStorm(n)
+		}
+	} else if c.Seq[0] == "deadline-sweep" && len(c.Seq) == 3 {
 		var n int
 		var seed int64
 		fmt.Sscan(c.Seq[1], &n)
